@@ -433,6 +433,15 @@ impl Database {
                 while child_cursor.valid() {
                     let child_key = child_cursor.key()?.to_vec();
                     let child_value = child_cursor.value()?;
+
+                    // A tombstone is not a row: a deleted child references nothing.
+                    if child_value.len() >= crate::mvcc::RecordHeader::SIZE
+                        && crate::mvcc::RecordHeader::from_bytes(child_value).is_deleted()
+                    {
+                        child_cursor.advance()?;
+                        continue;
+                    }
+
                     let child_user_data = get_user_data(child_value);
                     let child_record = RecordView::new(child_user_data, &child_record_schema)?;
                     let child_row =
